@@ -139,13 +139,23 @@ for value in values:
     result = AST_OPERATORS[type(node.op)](result, value)
 return result
 """)]
-REF["BinOp"] = [("ok", """
+REF["BinOp"] = [
+    ("lookup_first", """
+op = AST_OPERATORS[type(node.op)]
+left = self.eval(node.left)
+right = self.eval(node.right)
+if isinstance(left, NoneObject) or isinstance(right, NoneObject):
+    return False
+return op(left, right)
+"""),
+    ("lookup_last", """
 left = self.eval(node.left)
 right = self.eval(node.right)
 if isinstance(left, NoneObject) or isinstance(right, NoneObject):
     return False
 return AST_OPERATORS[type(node.op)](left, right)
-""")]
+"""),
+]
 REF["UnaryOp"] = [("ok", "return AST_OPERATORS[type(node.op)](self.eval(node.operand))")]
 REF["Compare"] = [
     ("chained", """
@@ -222,16 +232,28 @@ def generator_expr():
                 "Generator variable '{}' overwrites existing variable!".format(gen.target.id)
             )
     values = recursive_generator(node.generators[::-1])
-    for val in values:
-        result = self.eval(node.elt)
-        yield result
-
+%s
 return generator_expr()
 """
+_IFS = ("            if not all(self.eval(condition) for condition in gen.ifs):\n"
+        "                continue\n")
+_SCOPED = """    try:
+        for val in values:
+            result = self.eval(node.elt)
+            yield result
+    finally:
+        for gen in node.generators:
+            self.data.pop(gen.target.id, None)
+"""
+_LEAKING = """    for val in values:
+        result = self.eval(node.elt)
+        yield result
+"""
 REF["GeneratorExp"] = [
-    ("ifs", _GEN % ("            if not all(self.eval(condition) for condition in gen.ifs):\n"
-                    "                continue\n")),
-    ("no_ifs", _GEN % ""),
+    ("ifs,scoped", _GEN % (_IFS, _SCOPED)),
+    ("ifs,leaking", _GEN % (_IFS, _LEAKING)),
+    ("no_ifs,scoped", _GEN % ("", _SCOPED)),
+    ("no_ifs,leaking", _GEN % ("", _LEAKING)),
 ]
 
 EXPECTED_ORDER = ["Constant", "List", "Tuple", "Name", "Attribute", "BoolOp", "BinOp", "UnaryOp", "Compare", "Call",
@@ -539,7 +561,11 @@ def gen_selsem():
     out += "   false = only ops[0] / comparators[0] are looked at *)\n"
     out += "Definition compare_is_chained : bool := %s.\n" % cbool(shapes["Compare"] == "chained")
     out += "(* shape of the GeneratorExp branch: true = every condition in gen.ifs is evaluated per value *)\n"
-    out += "Definition comprehension_ifs_honoured : bool := %s.\n" % cbool(shapes["GeneratorExp"] == "ifs")
+    out += "Definition comprehension_ifs_honoured : bool := %s.\n" % cbool(shapes["GeneratorExp"].startswith("ifs,"))
+    out += "(* ... and removes its loop variables from self.data in a `finally` when the generator ends *)\n"
+    out += "Definition generator_variables_scoped : bool := %s.\n" % cbool(shapes["GeneratorExp"].endswith(",scoped"))
+    out += "(* shape of the BinOp branch: AST_OPERATORS[type(node.op)] is looked up before the operands are evaluated *)\n"
+    out += "Definition binop_operator_lookup_first : bool := %s.\n" % cbool(shapes["BinOp"] == "lookup_first")
     out += "(* the remaining branches have exactly the shape transcribed in model/SelSem.v *)\n"
     out += "Definition boolop_eager_bool_fold : bool := true.\nDefinition boolop_swallows_nonetype_typeerror : bool := true.\n"
     out += "Definition binop_sentinel_guard : bool := true.\nDefinition call_allowed_by_identity : bool := true.\n\n"
